@@ -5,6 +5,7 @@
 //! `<dir>/<property>.<i>.impl` (what the real lace code did on the same case), plus
 //! `<dir>/<property>.<i>.stats` (JSON: distribution of what was generated).
 mod cap;
+mod edit;
 mod prng;
 mod progs;
 mod run;
@@ -87,6 +88,7 @@ fn main() {
     match o.prop.as_str() {
         "C02" => vm::run(&o),
         "C03" => run::run(&o),
+        "C20" => edit::run(&o),
         other => {
             eprintln!("unknown property {other}");
             std::process::exit(2);
